@@ -118,6 +118,8 @@ impl EventSource for SocketRead<'_> {
             // was stored found nothing to wake up
             if cancel.is_canceled() {
                 if let Some(co) = io_data.co.take() {
+                    #[cfg(feature = "io_timeout")]
+                    io_data.disarm_timer();
                     crate::scheduler::get_scheduler().schedule(co);
                 }
             }
